@@ -112,6 +112,12 @@ where
         S: DataMut,
     {
         let n = self.len();
+        assert!(
+            i < n,
+            "index {} is out of bounds for an array of length {}",
+            i,
+            n
+        );
         if n == 1 {
             self[0].clone()
         } else {
@@ -141,6 +147,14 @@ where
         let mut deduped_indexes: Vec<usize> = indexes.to_vec();
         deduped_indexes.sort_unstable();
         deduped_indexes.dedup();
+        if let Some(&max_index) = deduped_indexes.last() {
+            assert!(
+                max_index < self.len(),
+                "index {} is out of bounds for an array of length {}",
+                max_index,
+                self.len()
+            );
+        }
 
         get_many_from_sorted_mut_unchecked(self, &deduped_indexes)
     }
